@@ -1,10 +1,10 @@
+import Typegen.Basic
 import Lean.Data.Json
 /-! JSON helpers for the line-protocol driver (no Mathlib anywhere below the driver). -/
 open Lean
 
 namespace Drv
 
-abbrev Str := List Char
 
 def jstr (s : Str) : Json := Json.str (String.ofList s)
 def jstrs (l : List Str) : Json := Json.arr (l.map jstr).toArray
